@@ -295,6 +295,16 @@ def gen_ssl(g):
                     for kwn in ("method", "ssl_version"):
                         src, first, last = render(pre + "import OpenSSL\n", callee, ["a"], [(kwn, form)], g.rng.random() < 0.3)
                         g.add_raw("b502-other", src, first, last, {"B502": mm if isbad else None}, cfg=pc, note=f"{callee}/{kwn}/{p}")
+                # other calls carrying BOTH keywords: each is decided on its own, so a harmless `method=` (an HTTP verb, a variable, a secure constant)
+                # must not hide an insecure `ssl_version=` nor the other way round (seeded change C15-m2: `method or ssl_version` picked one value)
+                for other in ("'GET'", "verb", "ssl.PROTOCOL_TLS_CLIENT", "None"):
+                    for order in (0, 1):
+                        for bad_kw, ok_kw in (("ssl_version", "method"), ("method", "ssl_version")):
+                            kws = [(bad_kw, form), (ok_kw, other)]
+                            if order:
+                                kws.reverse()
+                            src, first, last = render(pre + "import ssl\n", "pool.request", ["url"], kws, False)
+                            g.add_raw("b502-other-both", src, first, last, {"B502": mm if isbad else None}, cfg=pc, note=f"{bad_kw}={p}/{ok_kw}={other}/{order}")
             # B503 defaults
             for form, pre in ((f"ssl.{p}", "import ssl\n"), (f"SSL.{p}", "from OpenSSL import SSL\n"), (f"al.{p}", "import ssl as al\n")):
                 src = pre + f"def open_it(host, port=443, version={form}, *rest):\n    pass\n"
